@@ -37,7 +37,7 @@ ASSUMPTIONS = [
   'inexact arithmetic (Adam square roots, Welford moments, jit-vs-eager fusion) is compared with rtol=1e-5 (Welford 1e-4); everything else bytewise',
   'one fault kind: the wrapped optax transformation raises inside an eager Optimizer.update; read narrowly - a failed update is not an update, so step counter, parameters and optimizer state stay what the hand-written loop (which skipped that step) has, and the exception reaches the caller',
 ]
-PROBES = ['opt_nnx_optimizer', 'opt_nnx_trainstate', 'opt_linen_trainstate', 'step_jit', 'step_eager', 'jit_eager_alternation', 'non_wrt_edit', 'shared_param', 'multisteps', 'schedule', 'metric_average', 'metric_accuracy', 'metric_welford', 'metric_multi', 'metric_reset', 'metric_jit', 'metric_empty_nan', 'metric_repartition', 'metric_big_stream', 'mixed_precision_params', 'param_with_set_hook', 'param_metadata_edited_after_optimizer_creation', 'linen_trainstate_overwrite_with_gradient', 'metric_low_precision_values']
+PROBES = ['metric_accuracy_threshold_zero', 'linen_trainstate_bare_array_params', 'opt_nnx_optimizer', 'opt_nnx_trainstate', 'opt_linen_trainstate', 'step_jit', 'step_eager', 'jit_eager_alternation', 'non_wrt_edit', 'shared_param', 'multisteps', 'schedule', 'metric_average', 'metric_accuracy', 'metric_welford', 'metric_multi', 'metric_reset', 'metric_jit', 'metric_empty_nan', 'metric_repartition', 'metric_big_stream', 'mixed_precision_params', 'param_with_set_hook', 'param_metadata_edited_after_optimizer_creation', 'linen_trainstate_overwrite_with_gradient', 'metric_low_precision_values']
 
 
 def setup_worker(w, tier):
@@ -70,7 +70,7 @@ def generate(rs, tier):
       ops.append(dict(op='meta_edit', target=g.randrange(64), key=g.choice(['tag', 'group']), value=g.choice(['decay', 'frozen', 1])))
   return dict(
     engine='nnxworld',
-    knobs=dict(kind='optimizer', hooks=g.random() < 0.25, owg=g.random() < 0.3, frozen=g.random() < 0.4, build=build, tx=g.choice(['sgd', 'momentum', 'adam', 'adamw', 'clip_sgd', 'schedule', 'multisteps']), wrapper=g.choice(['nnx.Optimizer', 'nnx.Optimizer', 'nnx.TrainState', 'linen.TrainState']), wrt=g.choice(['Param', 'Param', 'SubParam', 'ParamOrCustom']), pdtype=g.choice(['float32', 'float32', 'float32', 'bfloat16'])),
+    knobs=dict(kind='optimizer', hooks=g.random() < 0.25, owg=g.random() < 0.3, frozen=g.random() < 0.4, build=build, tx=g.choice(['sgd', 'momentum', 'adam', 'adamw', 'clip_sgd', 'schedule', 'multisteps']), wrapper=g.choice(['nnx.Optimizer', 'nnx.Optimizer', 'nnx.TrainState', 'linen.TrainState']), wrt=g.choice(['Param', 'Param', 'SubParam', 'ParamOrCustom']), pdtype=g.choice(['float32', 'float32', 'float32', 'bfloat16']), bare=g.random() < 0.2),
     ops=ops,
   )
 
@@ -93,7 +93,9 @@ def gen_metric(g):
     # mixed-precision losses: half-precision batches (small integers, every batch sum exact), float32 statistic
     vdtype = g.choice(['bfloat16', 'float16'])
     vals = [g.randrange(-3, 5) for _ in range(n)]
-  return dict(engine='nnxworld', knobs=dict(kind='metric', metric=metric, vdtype=vdtype, vals=vals, labels=labels, jit=g.random() < 0.3), ops=[dict(op='partition', cuts=cuts, resets=resets), dict(op='partition', cuts=cuts2, resets=[])])
+  # binary accuracy: the documented threshold option, including the falsy threshold 0.0
+  threshold = g.choice([2.5, 2.5, 0.0, 0.0, -1.0])
+  return dict(engine='nnxworld', knobs=dict(kind='metric', metric=metric, vdtype=vdtype, vals=vals, labels=labels, jit=g.random() < 0.3, threshold=threshold), ops=[dict(op='partition', cuts=cuts, resets=resets), dict(op='partition', cuts=cuts2, resets=[])])
 
 
 SHRINK_LISTS = ['ops']
@@ -241,6 +243,12 @@ class OptWorld:
       self.ref_params = jax.tree.map(lambda x: np.array(x), params)
       self.ref_state = self.tx.init(self.ref_params)
       self.owg = None
+      if k.get('bare') and not k.get('owg') and jax.tree_util.tree_leaves(params):
+        # the parameter tree is one bare array (a legal pytree)
+        params = jnp.asarray(jax.tree_util.tree_leaves(params)[0])
+        self.ref_params = np.array(params)
+        self.ref_state = self.tx.init(self.ref_params)
+        res.probe('linen_trainstate_bare_array_params')
       if k.get('owg'):
         # fp8-style parameters: a second collection whose "gradient" simply replaces the value
         from flax.linen.fp8_ops import OVERWRITE_WITH_GRADIENT as OWG
@@ -372,7 +380,7 @@ class OptWorld:
     self.log.add(oi, 'step', jit)
 
 
-def ref_stats(kind, vals, labels):
+def ref_stats(kind, vals, labels, threshold=2.5):
   v = np.asarray(vals, np.float64)
   if kind == 'Average':
     return dict(avg=v.mean() if len(v) else np.nan)
@@ -381,7 +389,7 @@ def ref_stats(kind, vals, labels):
       return dict(mean=0.0, std=np.nan, sem=np.nan)
     return dict(mean=v.mean(), std=v.std(), sem=v.std() / np.sqrt(len(v)))
   if kind == 'Accuracy_binary':
-    ok = ((v >= 2.5) == (np.asarray(labels) > 0))
+    ok = ((v >= threshold) == (np.asarray(labels) > 0))
     return dict(avg=ok.mean() if len(v) else np.nan)
   if kind == 'Accuracy_multi':
     logits = np.stack([v, v * 0 + 3, -v], -1) if len(v) else np.zeros((0, 3))
@@ -410,8 +418,10 @@ def run_metric(plan, res, log):
       m = nnx.metrics.Welford()
       res.probe('metric_welford')
     elif kind == 'Accuracy_binary':
-      m = nnx.metrics.Accuracy(threshold=2.5)
+      m = nnx.metrics.Accuracy(threshold=k.get('threshold', 2.5))
       res.probe('metric_accuracy')
+      if k.get('threshold', 2.5) == 0.0:
+        res.probe('metric_accuracy_threshold_zero')
     elif kind == 'Accuracy_multi':
       m = nnx.metrics.Accuracy()
       res.probe('metric_accuracy')
@@ -462,7 +472,7 @@ def run_metric(plan, res, log):
     else:
       checks = [(kind, got, None)]
     for ck, avg, st in checks:
-      want = ref_stats(ck, seen, labels[since:pos])
+      want = ref_stats(ck, seen, labels[since:pos], k.get('threshold', 2.5))
       if st is None:
         a = float(avg)
         if np.isnan(want['avg']):
